@@ -71,7 +71,8 @@ def _us():
 
 
 def q_producer(q, p, n, size, conn, nowait=False):
-    ev = []
+    """events are streamed to the driver as they happen, so that a party that gets stuck in a
+    call still leaves its history behind; ('done', ...) ends the stream"""
     for k in range(1, n + 1):
         item = (p, k, bytes([k % 251]) * size)
         while True:
@@ -81,19 +82,22 @@ def q_producer(q, p, n, size, conn, nowait=False):
                     q.put(item, False)
                 else:
                     q.put(item)
-                ev.append({'k': 'put', 'who': p, 'p': p, 'n': k, 't0': t0, 't1': _us(), 'to': 0})
+                conn.send(('ev', {'k': 'put', 'who': p, 'p': p, 'n': k, 't0': t0, 't1': _us(), 'to': 0}))
                 break
             except Exception as exc:       # queue.Full
                 if type(exc).__name__ != 'Full':
-                    raise
-                ev.append({'k': 'full', 'who': p, 'p': p, 'n': k, 't0': t0, 't1': _us(), 'to': 0})
+                    conn.send(('ev', {'k': 'put_error', 'who': p, 'p': p, 'n': k, 't0': t0, 't1': _us(),
+                                      'to': 0}))
+                    conn.send(('done', 0))
+                    conn.close()
+                    return
+                conn.send(('ev', {'k': 'full', 'who': p, 'p': p, 'n': k, 't0': t0, 't1': _us(), 'to': 0}))
                 time.sleep(0.002)
-    conn.send(ev)
+    conn.send(('done', 0))
     conn.close()
 
 
 def q_consumer(q, c, n, size, conn, timeout=None, joinable=False, delay=0.0):
-    ev = []
     got = 0
     bad = 0
     while got < n:
@@ -102,23 +106,38 @@ def q_consumer(q, c, n, size, conn, timeout=None, joinable=False, delay=0.0):
             item = q.get() if timeout is None else q.get(True, timeout)
         except Exception as exc:           # queue.Empty
             if type(exc).__name__ != 'Empty':
-                raise
-            ev.append({'k': 'empty', 'who': c, 'p': 0, 'n': 0, 't0': t0, 't1': _us(),
-                       'to': int(timeout * 1e6)})
+                # EOFError, an unpickling error ...: the stream is damaged
+                conn.send(('ev', {'k': 'get_error', 'who': c, 'p': 0, 'n': 0, 't0': t0, 't1': _us(), 'to': 0}))
+                break
+            conn.send(('ev', {'k': 'empty', 'who': c, 'p': 0, 'n': 0, 't0': t0, 't1': _us(),
+                              'to': int(timeout * 1e6)}))
             continue
         t1 = _us()
-        p, k, payload = item
-        if payload != bytes([k % 251]) * size:
+        try:
+            p, k, payload = item
+            if payload != bytes([k % 251]) * size:
+                bad += 1
+        except Exception:
+            p, k = 0, 0
             bad += 1
-        ev.append({'k': 'get', 'who': c, 'p': p, 'n': k, 't0': t0, 't1': t1, 'to': 0})
+        conn.send(('ev', {'k': 'get', 'who': c, 'p': p, 'n': k, 't0': t0, 't1': t1, 'to': 0}))
         got += 1
         if joinable:
             if delay:
                 time.sleep(delay)
             t0 = _us()
             q.task_done()
-            ev.append({'k': 'task_done', 'who': c, 'p': p, 'n': k, 't0': t0, 't1': _us(), 'to': 0})
-    conn.send((ev, bad))
+            conn.send(('ev', {'k': 'task_done', 'who': c, 'p': p, 'n': k, 't0': t0, 't1': _us(), 'to': 0}))
+    conn.send(('done', bad))
+    conn.close()
+
+
+def q_joiner(q, who, conn):
+    t0 = _us()
+    conn.send(('ev', {'k': 'join_begin', 'who': who, 'p': 0, 'n': 0, 't0': t0, 't1': t0, 'to': 0}))
+    q.join()
+    conn.send(('ev', {'k': 'join', 'who': who, 'p': 0, 'n': 0, 't0': t0, 't1': _us(), 'to': 0}))
+    conn.send(('done', 0))
     conn.close()
 
 
